@@ -187,6 +187,22 @@ def check_props(ctx, name=None):
         # every theorem must be followed by Print Assumptions
         ctx.broken.append('%s: %d theorems but only %d Print Assumptions results' % (rel, len(thms), closed))
         discharged = closed
+    if ctx.thorough() and rc == 0:
+        # thorough tier: re-check the compiled property module and everything it depends on with
+        # the independent checker, and record the axioms it reports
+        rcc, outc = sh(['coqchk', '-silent', '-o', '-R', COQ, 'AL', 'AL.Props.' + name], cwd=COQ, timeout=2400)
+        m = re.search(r'\* Axioms:\s*(.*?)\n\s*\n', outc, flags=re.S)
+        ax = ' '.join(m.group(1).split()) if m else 'unparsed'
+        ctx.coverage['coqchk'] = {'exit': rcc, 'axioms': ax,
+                                  'type_in_type': 'type-in-type: <none>' in outc.replace('\n', ' ').replace('  ', ' '),
+                                  'cmd': 'coqchk -silent -o -R coq AL AL.Props.' + name}
+        ctx.assumptions.append('coqchk AL.Props.%s: exit %d, axioms: %s' % (name, rcc, ax))
+        if rcc != 0:
+            ctx.broken.append('coqchk rejects AL.Props.%s: %s' % (name, outc[-300:]))
+        elif ax not in ('<none>',):
+            bad = [a for a in re.split(r'[\s,]+', ax) if a and a.split('.')[-1] not in ALLOWED_AXIOMS and a not in ALLOWED_AXIOMS]
+            if bad:
+                ctx.broken.append('coqchk reports axioms under AL.Props.%s: %s' % (name, ax))
     return len(thms), discharged, text
 
 
